@@ -67,6 +67,12 @@ impl C20 {
                     })
                 })
                 .collect();
+            let unlisted_solvables: Vec<SRef> = u
+                .packages
+                .iter()
+                .enumerate()
+                .flat_map(|(pi, pk)| (0..pk.unlisted.len()).map(move |idx| SRef { pkg: pi, idx, listed: false }))
+                .collect();
             let bad = |sig: &str, d: String| Failure {
                 signature: format!("C20:{sig}"),
                 detail: d,
@@ -220,17 +226,12 @@ impl C20 {
                     }
                 }
                 // availability, after every op, for every solvable
-                for &s in &all_solvables {
+                for &s in all_solvables.iter().chain(unlisted_solvables.iter()) {
                     let pk = &u.packages[s.pkg];
-                    let hinted = fetched_pkgs.contains(&s.pkg)
-                        && match &pk.hint {
-                            Hint::None => false,
-                            Hint::All => true,
-                            Hint::Some(v) => {
-                                some_hint = true;
-                                v.contains(&s.idx)
-                            }
-                        };
+                    if matches!(pk.hint, Hint::Some(_)) {
+                        some_hint = true;
+                    }
+                    let hinted = fetched_pkgs.contains(&s.pkg) && pk.hints(s.listed, s.idx);
                     let want = hinted || fetched_deps.contains(&s);
                     let got = cache.are_dependencies_available_for(SolvableId(u.cand(s).sid));
                     if got != want {
@@ -281,7 +282,6 @@ impl C20 {
             let policy = if sc.extra.get(94 - ui).map_or(true, |v| v & 1 == 0) { Policy::Lifo } else { Policy::Fifo };
             let sched = crate::sched::Sched::new(policy, vec![]);
             let provider = TableProvider::new(c.u.clone()).with_sched(sched.clone());
-        provider.vary_answers();
             provider.vary_answers();
             let cache = SolverCache::new(provider);
             let rt = crate::sched::SchedRuntime { sched: sched.clone() };
@@ -386,7 +386,11 @@ impl C20 {
             .packages
             .iter()
             .enumerate()
-            .flat_map(|(pi, pk)| (0..pk.cands.len()).map(move |idx| SRef { pkg: pi, idx, listed: true }))
+            .flat_map(|(pi, pk)| {
+                (0..pk.cands.len())
+                    .map(move |idx| SRef { pkg: pi, idx, listed: true })
+                    .chain((0..pk.unlisted.len()).map(move |idx| SRef { pkg: pi, idx, listed: false }))
+            })
             .collect();
         if all.is_empty() {
             return None;
@@ -400,18 +404,14 @@ impl C20 {
         let extra_waiters = if with_listener { pick(3, 4) } else { 0 };
         let sched = crate::sched::Sched::new(Policy::Fifo, vec![]);
         let provider = TableProvider::new(c.u.clone()).with_sched(sched.clone());
+        provider.vary_answers();
         let cache = SolverCache::new(provider);
         let rt = crate::sched::SchedRuntime { sched: sched.clone() };
         let bad = |sig: &str, d: String| Failure { signature: format!("C20:{sig}"), detail: d };
         let availability = |cache: &SolverCache<TableProvider>, fetched_pkgs: &[usize], fetched: &[SRef], when: &str| -> Option<Failure> {
             for &x in &all {
                 let pk = &u.packages[x.pkg];
-                let hinted = fetched_pkgs.contains(&x.pkg)
-                    && match &pk.hint {
-                        Hint::None => false,
-                        Hint::All => true,
-                        Hint::Some(v) => v.contains(&x.idx),
-                    };
+                let hinted = fetched_pkgs.contains(&x.pkg) && pk.hints(x.listed, x.idx);
                 let want = hinted || fetched.contains(&x);
                 let got = cache.are_dependencies_available_for(SolvableId(u.cand(x).sid));
                 if got != want {
